@@ -317,6 +317,11 @@ func (m *LinearMinting) AmountToMint(logger log.Logger, startTime time.Time, end
 }
 
 func (m *ExponentialStepMinting) AmountToMint(logger log.Logger, startTime time.Time, endTime *time.Time, blockTime time.Time) sdk.Dec {
+	if blockTime.Before(startTime) {
+		// as in LinearMinting: nothing before the start (a governance update can move the start of the current
+		// minter into the future; a negative elapsed time gave a negative amount and a negative remainder in the state)
+		return sdk.ZeroDec()
+	}
 	now := blockTime
 	if endTime != nil && blockTime.After(*endTime) {
 		now = *endTime
